@@ -656,7 +656,8 @@ def judge_spim(tr, dw, mode, ncs, psel):
         L, div = x["len"], x["div"]
         tag = "transfer %d (start accepted in cycle %d, length %d, divider %d, mosi %#x)" % (i, a, L, div, x["mosi"])
         if not (1 <= L <= dw) or div < 2:
-            return ("spim-harness", tag + ": outside the documented domain", "harness"), info
+            return ("spim-config", tag + ": length / divider seen by the core are not what the program wrote (1..data_width, >= 2)",
+                    "config"), info
         shrunk = [c for c in range(1, a + 1) if tr[c][DIV] < tr[c - 1][DIV]]
         if shrunk:
             info["cls"].add("spim:divider-lowered-at-run-time")
@@ -711,8 +712,8 @@ def judge_spim(tr, dw, mode, ncs, psel):
             return ("spim-mosi", tag + ": MOSI bits %r, MSB-first (%s) gives %r" % (sent, mode, exp), "mosi"), info
         # MISO capture / loopback
         for r_ in rs:
-            if tr[r_ - 1][MISO] != tr[r_][MISO]:
-                return ("spim-harness", tag + ": partner changed MISO at a rising edge", "harness"), info
+            if tr[r_ - 1][MISO] != tr[r_][MISO] and ncs == 1 and tr[r_ - 1][CSN] == 0 and tr[r_][CSN] == 0 and tr[r_ - 2][CSN] == 0:
+                raise RuntimeError("C19 harness: SPI slave partner changed MISO at a rising edge (%s)" % tag)
         src = sent if x["loop"] else [tr[r_ - 1][MISO] for r_ in rs]
         word = 0
         for b in src:
@@ -1591,6 +1592,12 @@ def run_uartcore(case):
         cls.append("uart:write-while-full")
     if any(r[RXFULL] for r in tr):
         cls.append("uart:rx-fifo-full")
+    if case["flush"]:
+        if len(sent) < len(accepted):
+            cls.append("uart:bytes-flushed")
+        if sent:
+            cls.append("uart:phy-ready-again-after-flush")
+        return ok(nt=len(sent) < len(accepted) and len(sent) >= 1, cls=cls, cycles=cyc)
     return ok(nt=len(accepted) >= 3 and len(pushed) >= 3, cls=cls, cycles=cyc)
 
 
@@ -1607,7 +1614,8 @@ def subchecks():
                  "one handshake per byte, idle 1; nt = >= 2 bytes with a back-to-back offer"),
         Sub("uart-rx", run_uart_rx, strategy=st_uart_rx, examples=(320, 6000), shards=(12, 16),
             rule="RS232PHYRX: fractional-time line driver, eps within the measured envelope, start phase n/16 cycle, gaps 0..3 bit, "
-                 "framing errors and breaks must not deliver and must not disturb later frames; nt = |eps| >= 1.5 % or gap 0"),
+                 "every good frame is delivered once, in order, during its own stop bit; framing errors and breaks must not "
+                 "deliver and must not disturb later frames; nt = |eps| >= 1.5 % or gap 0"),
         Sub("waittimer", run_waittimer, strategy=st_waittimer, examples=(160, 3000), shards=(2, 16),
             rule="WaitTimer(t): done <=> wait was high during the last t cycles; generated wait schedules, final hold; nt = a count "
                  "interrupted before completion and a completed one"),
@@ -1638,7 +1646,8 @@ def subchecks():
                  "pending/irq model, everything drains; nt = >= 3 bytes each way"),
         Sub("uart-core-flush", run_uartcore, strategy=lambda tier: st_uartcore(tier, flush=True), examples=(32, 800), shards=(1, 16),
             rule="as uart-core with add_auto_tx_flush (16 cycles): bytes reaching the PHY are a subsequence of the accepted ones, "
-                 "everything drains even if the PHY never becomes ready (kept apart because of finding c19:uart:auto-flush-duplicate)"),
+                 "everything drains even if the PHY never becomes ready (kept apart because of finding c19:uart:auto-flush-duplicate); "
+                 "nt = some bytes flushed and some delivered"),
         Sub("i2c-busy", run_i2c, strategy=lambda tier: st_i2c(tier, busy=True), examples=(48, 800), shards=(1, 16),
             rule="as i2c/any, but commands are written at arbitrary times, also while the previous one is running (kept apart because "
                  "of finding c19:i2c:command-while-busy)"),
